@@ -8,10 +8,12 @@
 package c04
 
 import (
+	"os"
 	"encoding/gob"
 	"encoding/json"
 	"fmt"
 	"reflect"
+	"runtime"
 	"runtime/metrics"
 	"sort"
 	"strings"
@@ -214,17 +216,50 @@ func allocBytes() uint64 {
 	return 0
 }
 
-// "memory proportional to the input": a clean decode of the largest generated
-// value allocates a few MiB (a gob.Decoder compiles its engine per call); the
-// bound is an order of magnitude above that plus 16 KiB per input byte, so
-// only an allocation driven by a number read from the input trips it.
+// "memory proportional to the input". Two rules. (1) Everything allocated during
+// one decode (cumulative, measured cheaply) stays under 256 MiB + 16 KiB per
+// input byte: a clean decode of a 50 KB blob allocates about 6 MiB, and
+// encoding/gob itself allocates up to ~10 MiB per decode attempt for a message
+// whose damaged length prefix is large (measured: 41 MiB for one flipped
+// length byte, five attempts), which is transient and not the library's doing.
+// (2) When more than 16 MiB were allocated, what the decoded value RETAINS is
+// measured exactly (two forced collections around a second decode) and must
+// stay under 8 MiB + 1 KiB per input byte.
 // MaxAlloc is the largest allocation growth seen during one decode in this process.
 var MaxAlloc uint64
 
 const (
-	allocBound   = 64 << 20
+	allocBound   = 256 << 20
 	allocPerByte = 16 << 10
+	// second rule: above suspiciousAlloc the memory the decoded value retains is measured exactly
+	suspiciousAlloc  = 16 << 20
+	retainedBound    = 8 << 20
+	retainedPerByte  = 1 << 10
 )
+
+var keepAlive any
+
+// retainedBy decodes once more between two forced collections and returns the
+// growth of the live heap that the returned value accounts for.
+func retainedBy(e *entry, input []byte) (kept uint64) {
+	defer func() {
+		_ = recover()
+		keepAlive = nil
+	}()
+	var m0, m1 runtime.MemStats
+	runtime.GC()
+	runtime.ReadMemStats(&m0)
+	hook := simrt.Limit
+	simrt.Limit = 0
+	keepAlive, _ = e.decode(input)
+	simrt.Limit = hook
+	runtime.GC()
+	runtime.ReadMemStats(&m1)
+	if m1.HeapAlloc > m0.HeapAlloc {
+		kept = m1.HeapAlloc - m0.HeapAlloc
+	}
+	return kept
+}
 
 // guarded runs fn under the panic oracle; stage names what was running.
 func guarded(c *core.Ctx, e *entry, stage string, input []byte, fn func()) (ok bool) {
@@ -283,11 +318,26 @@ func readAndExercise(c *core.Ctx, e *entry, input []byte, cleanSteps int64) (val
 	grown := allocBytes() - a0
 	if grown > MaxAlloc {
 		MaxAlloc = grown
+		if os.Getenv("VERIF_DEBUG_ALLOC") != "" && grown > 4<<20 {
+			fmt.Fprintf(os.Stderr, "ALLOC %d KiB at %s on %d bytes %q err=%v\n", grown>>10, e.name, len(input), clip(input, 200), err)
+		}
 	}
 	if grown > allocBound+allocPerByte*uint64(len(input)) {
 		c.Fail("alloc", "C04/alloc/decode/"+e.codec, "decode of %d bytes at %s allocated %d MiB", len(input), e.name, grown>>20)
 		c.PlanOut = &core.Plan{Property: "C04", Tier: c.Tier, Mode: "direct", Entry: e.name, Input: append([]byte{}, input...)}
 		return nil, nil, steps
+	}
+	if grown > suspiciousAlloc {
+		// A lot was allocated for this input. encoding/gob itself reads a message whose (damaged)
+		// length prefix is large in 10 MiB chunks and throws them away – transient, bounded, and not
+		// the library's doing. What the library must not do is size something it KEEPS by a number
+		// read from the input: measure what the decoded value retains.
+		c.Probe("decode_allocated_over_16MiB")
+		if kept := retainedBy(e, input); kept > retainedBound+retainedPerByte*uint64(len(input)) {
+			c.Fail("alloc", "C04/alloc/retained/"+e.codec, "the value decoded from %d bytes at %s keeps %d MiB alive (allocation sized by a number read from the input, not by the input)", len(input), e.name, kept>>20)
+			c.PlanOut = &core.Plan{Property: "C04", Tier: c.Tier, Mode: "direct", Entry: e.name, Input: append([]byte{}, input...)}
+			return nil, nil, steps
+		}
 	}
 	if err != nil {
 		c.Probe("decode_error")
@@ -379,13 +429,16 @@ func followUps(c *core.Ctx, e *entry, input []byte, val any) {
 			return
 		}
 	}
-	if _, isItem := val.(ap.Item); isItem && c.Tier != "thorough" && !c.Replay {
-		// quick tier: the package-level follow-ups above already reach the value's own
-		// MarshalJSON / GobEncode / accessors; the per-method pass runs in the thorough tier
-		return
-	}
+	// quick tier: the package-level follow-ups above already reach the value's own encoders, so
+	// the per-method pass only calls the cheap accessors; the encoders' method forms
+	// (MarshalJSON, MarshalBinary, GobEncode, MarshalText) run in the thorough tier and in replays
+	_, isItem := val.(ap.Item)
+	cheapOnly := isItem && c.Tier != "thorough" && !c.Replay
 	rv := reflect.ValueOf(val)
 	for _, mn := range readOnlyNiladic {
+		if cheapOnly && (strings.HasPrefix(mn, "Marshal") || mn == "GobEncode") {
+			continue
+		}
 		m := rv.MethodByName(mn)
 		if !m.IsValid() || m.Type().NumIn() != 0 {
 			continue
